@@ -20,6 +20,9 @@ PREAMBLE = (
     "Definition count_row (r:row) (l:list row) := List.length (List.filter (row_eqb r) l).\n"
     "Definition bound_somewhere (r:row) := existsb (fun x => match x with Some _ => true | None => false end) r.\n"
     "(* rdflib omits the all-unbound solution from its result table: rows are compared without it *)\n"
+    "Fixpoint terms_eqb (a b:list term) := match a, b with [], [] => true | x :: a', y :: b' => term_eqb x y && terms_eqb a' b' | _, _ => false end.\n"
+    "Definition count_tuple (r:list term) (l:list (list term)) := List.length (List.filter (terms_eqb r) l).\n"
+    "Definition tuples_perm (a b:list (list term)) := Nat.eqb (List.length a) (List.length b) && forallb (fun r => Nat.eqb (count_tuple r a) (count_tuple r b)) a.\n"
     "Definition rows_perm (a0 b0:list row) := let a := List.filter bound_somewhere a0 in let b := List.filter bound_somewhere b0 in\n"
     "  Nat.eqb (List.length a) (List.length b) && forallb (fun r => Nat.eqb (count_row r a) (count_row r b)) a.\n"
 )
@@ -333,6 +336,30 @@ def batch_cases(rng, n):
     return bodies, meta, py_bad
 
 
+def values_cases(rng, n):
+    """the VALUES clause of the target query as the real code writes it vs the model's product of the multi-valued kinds"""
+    from pyshacl.shape import Shape
+    bodies, meta = [], []
+    pool = [EX["t%d" % i] for i in range(6)]
+    for j in range(n):
+        sets = [set(rng.sample(pool, rng.choice([0, 1, 1, 2, 3]))) for _ in range(4)]
+        clause, binds = Shape.make_focus_nodes_sparql_values(sets[0], sets[1], sets[3], sets[2])   # (classes, implicit, objectsOf, subjectsOf)
+        I = enc.Interner()
+        rows = [[URIRef(x[1:-1]) for x in re.findall(r"<[^>]*>", line)] for line in clause.split("\n") if line.strip().startswith("(")]
+        if not clause.strip():
+            rows = [[]]   # no VALUES clause: the unit row
+        head = re.search(r"VALUES \(([^)]*)\)", clause)
+        keys = head.group(1).split() if head else []
+        order = {"$targetClass": sets[0], "$implicitClass": sets[1], "$targetSubjectsOf": sets[2], "$targetObjectsOf": sets[3]}
+        # the model: product of the value lists of exactly the kinds with two or more values, in the clause's column order
+        kinds = [sorted(order[k], key=str) for k in keys]
+        expected_keys = [k for k in ("$targetClass", "$implicitClass", "$targetSubjectsOf", "$targetObjectsOf") if len(order[k]) > 1]
+        ok_keys = keys == expected_keys and all((len(order["$" + b]) == 1 and v == next(iter(order["$" + b]))) or (len(order["$" + b]) == 0 and v == "UNDEF") for b, v in binds.items())
+        bodies.append("%s && tuples_perm (rows_product [%s]) [%s]" % (enc.coq_bool(ok_keys), "; ".join(I.terms(k) for k in kinds), "; ".join(I.terms(r) for r in rows)))
+        meta.append({"model": "rows_product [%s]" % "; ".join(I.terms(k) for k in kinds), "keys_ok": ok_keys, "kind": "values clause of the target query", "sets": [sorted(map(str, s_)) for s_ in sets], "clause": clause, "bindings": {k: str(v) for k, v in binds.items()}})
+    return bodies, meta
+
+
 # ------------------------------------------------------------------ the property on the real code: both modes on equal inputs
 def mode_cases(rng, n):
     cases = []
@@ -393,6 +420,7 @@ def main(tier, seed, replay=None):
     b1, m1 = printer_cases(rng, 1500 if big else 220)
     b2, m2 = parser_cases(rng, 3000 if big else 400)
     b3, m3, py_bad = batch_cases(rng, 800 if big else 120)
+    b5, m5 = values_cases(rng, 600 if big else 80)
     # Tie A for the no-write theorem: traces of the real Validator.run in sparql_mode
     b4, m4 = [], []
     vals = [dict(ont=False, inplace=i, preinf=False, multi=m, inference=None, advanced=a, sparql=True, functions=f, rules=r)
@@ -403,7 +431,7 @@ def main(tier, seed, replay=None):
         fs = "[]" if fault is None else "[%d%%nat]" % fault
         b4.append("trace_eqb (trace (snd (run_validator (%s) %s))) [%s]" % (c08.valuation_coq(v), fs, "; ".join(ev)))
         m4.append({"kind": "tie-a trace (sparql_mode)", "valuation": v, "fault": fault, "recorded": ev, "model": "trace (snd (run_validator (%s) %s))" % (c08.valuation_coq(v), fs)})
-    bodies, meta = b1 + b2 + b3, m1 + m2 + m3
+    bodies, meta = b1 + b2 + b3 + b5, m1 + m2 + m3 + m5
     if ob.ok:
         failed, errors = F.coq_eval("c07", PREAMBLE, bodies, shard=150)
         failed4, errors4 = F.coq_eval("c07t", c08.PREAMBLE, b4, shard=40)
